@@ -38,9 +38,27 @@ class Roles:
 
         # DataStorage pass-throughs: the Adapter call's destination is the return place
         def passthrough(b, meth):
+            from .defuse import du_of
             for bi, t in b.calls():
                 c = t.callee
-                if c is not None and c.trait == ADAPTER_TRAIT and c.name == meth and t.dest is not None and t.dest.local == 0 and not t.dest.proj:
+                if c is None or c.trait != ADAPTER_TRAIT or c.name != meth:
+                    continue
+                if t.dest is not None and t.dest.local == 0 and not t.dest.proj:
+                    return True
+                # ... or the call forwards the function's own parameters (`adapter.write_object(key, data)?; Ok(())`, a memo or a
+                # log line around it): every argument after the receiver is a view of a parameter. The pack writer / the pack and
+                # object readers build their key themselves and do not match.
+                du = du_of(b)
+                fw = len(t.args) >= 2
+                for a in t.args[1:]:
+                    x = du.operand_term(a, 10)
+                    hops = 0
+                    while hops < 20 and x[0] in ("ref", "deref", "cast", "var"):
+                        hops += 1
+                        x = x[3] if x[0] == "var" else x[1]
+                    if not (x[0] == "param" and 2 <= x[1] <= b.argc):
+                        fw = False
+                if fw:
                     return True
             return False
 
